@@ -43,6 +43,12 @@ func (c08Stream) Generate(rng *rand.Rand, n int, thorough bool) []Case {
 		cs = append(cs, Case{Line: fmt.Sprintf("c08 conns=70000 ending=churn inflight=none mode=plain seed=%d", rng.Intn(1<<30)), Kind: "churn"})
 	}
 	for len(cs) < n {
+		if rng.Intn(10) == 0 {
+			// a burst of connections ending together while the OnClose callback is slow; on a TLS listener some of them
+			// never complete (or never start) their handshake
+			cs = append(cs, Case{Line: fmt.Sprintf("c08 conns=%d ending=burst inflight=none mode=%s seed=%d", []int{5, 8, 12}[rng.Intn(3)], []string{"plain", "tls"}[rng.Intn(2)], rng.Intn(1<<30)), Kind: "burst"})
+			continue
+		}
 		k := []int{1, 2, 3, 6, 12}[rng.Intn(5)]
 		ending := c08Endings[rng.Intn(len(c08Endings))]
 		if rng.Intn(3) == 0 {
@@ -258,10 +264,102 @@ func c08Churn(total int) string {
 	return verdict
 }
 
+// c08Burst: k connections (on a TLS listener every third one hangs up before its handshake, every fourth sends
+// plaintext instead) end in two bursts while every OnClose call takes 30 ms: OnClose is called exactly once for each
+// accepted connection, with that connection's own id.
+func c08Burst(k int, mode string, seed int64) string {
+	tlsConfigs()
+	h := func(w *gldap.ResponseWriter, r *gldap.Request) { answer(w, r) }
+	var mu sync.Mutex
+	closedIDs := map[int]int{}
+	sut, err := startServer(allRoutes(h, nil, nil), serverTLSFor(mode), func(id int) {
+		time.Sleep(30 * time.Millisecond)
+		mu.Lock()
+		closedIDs[id]++
+		mu.Unlock()
+	})
+	if err != nil {
+		return "harness-error start: " + err.Error()
+	}
+	var conns []net.Conn
+	for i := 0; i < k; i++ {
+		switch {
+		case mode == "tls" && i%3 == 1:
+			c, err := net.DialTimeout("tcp", sut.addr, 3*time.Second) // no ClientHello, ever
+			if err == nil {
+				conns = append(conns, c)
+			}
+		case mode == "tls" && i%4 == 2:
+			c, err := net.DialTimeout("tcp", sut.addr, 3*time.Second)
+			if err == nil {
+				_, _ = c.Write(opFrame("bind", 1)) // plaintext on the TLS port
+				conns = append(conns, c)
+			}
+		default:
+			cl, err := connect(sut.addr, mode)
+			if err != nil {
+				return "harness-error connect: " + err.Error()
+			}
+			_ = cl.send(opFrame("bind", 1))
+			if _, err := cl.readFrame(5 * time.Second); err != nil {
+				return "harness-error bind: " + err.Error()
+			}
+			conns = append(conns, cl.c)
+		}
+	}
+	// wait until the accept loop has taken them all
+	deadline := time.Now().Add(3 * time.Second)
+	for sut.tr.Count("run.added", -1) < len(conns) && time.Now().Before(deadline) {
+		time.Sleep(time.Millisecond)
+	}
+	accepted := sut.tr.Count("run.added", -1)
+	// a drawn-out burst: the connections end 12 ms apart, so every callback (30 ms) still runs when the next
+	// connections end (seed even), or two first and the rest together (seed odd)
+	for i, c := range conns {
+		c.Close()
+		if seed%2 == 0 {
+			time.Sleep(12 * time.Millisecond)
+		} else if i == 1 {
+			time.Sleep(10 * time.Millisecond)
+		}
+	}
+	deadline = time.Now().Add(5 * time.Second)
+	for time.Now().Before(deadline) {
+		mu.Lock()
+		n := 0
+		for _, v := range closedIDs {
+			n += v
+		}
+		mu.Unlock()
+		if n >= accepted {
+			break
+		}
+		time.Sleep(5 * time.Millisecond)
+	}
+	time.Sleep(60 * time.Millisecond)
+	verdict := "ok"
+	mu.Lock()
+	for id := 1; id <= accepted; id++ {
+		if closedIDs[id] != 1 {
+			verdict = fmt.Sprintf("OnClose called %d times for connection id %d (%d accepted connections ending in a burst, slow callback)", closedIDs[id], id, accepted)
+			break
+		}
+	}
+	if verdict == "ok" && len(closedIDs) != accepted {
+		verdict = fmt.Sprintf("OnClose called for %d distinct ids, %d connections were accepted", len(closedIDs), accepted)
+	}
+	mu.Unlock()
+	sut.finish()
+	return verdict + "\t" + traceString(sut.tr.Snapshot(), "conn.", "loop.", "req.", "run.", "stop.")
+}
+
 func (c08Stream) Impl(c Case) string {
 	p := kv(c.Line)
 	if p["ending"] == "churn" {
 		return c08Churn(atoi(p["conns"])) + "\t"
+	}
+	if p["ending"] == "burst" {
+		return c08Burst(atoi(p["conns"]), p["mode"], int64(atoi(p["seed"])))
 	}
 	k, ending, inflight, mode := atoi(p["conns"]), p["ending"], p["inflight"], p["mode"]
 	rng := rand.New(rand.NewSource(int64(atoi(p["seed"]))))
